@@ -64,3 +64,52 @@ Theorem C05_errors_have_no_effect : update_in_place = false -> forall e s r,
    exists h, fst (route routes (r_meth r) (r_path r) false) = Some h /\
              (h = "ProxyUpdate" \/ h = "Populate" \/ h = "ResetState")%string).
 Proof. exact rejected_unchanged. Qed.
+
+(** the registry invariant: in every state reachable from the empty server by ANY request sequence
+    (valid, malformed, conflicting; populate and reset included) proxies are unique by name and
+    toxics are unique by name within each proxy, across both streams *)
+From TP Require Import Proofs.ApiInv.
+Theorem C05_registry_invariant : forall e rs,
+  let s := snd (api_run e [] rs) in
+  NoDup (map p_name s) /\ Forall (fun p => NoDup (map t_name (all_toxics p))) s.
+Proof. exact reachable_registry. Qed.
+
+(** ... and one request preserves it from any state that has it *)
+Theorem C05_registry_step : forall e s r,
+  NoDup (map p_name s) -> Forall (fun p => NoDup (map t_name (all_toxics p))) s ->
+  NoDup (map p_name (snd (api_step e s r))) /\ Forall (fun p => NoDup (map t_name (all_toxics p))) (snd (api_step e s r)).
+Proof. intros e s r H1 H2. split; [exact (step_uniq e s r H1)|exact (step_tuniq e s r H2)]. Qed.
+
+(** ---- every read reflects all earlier successful writes *)
+From TP Require Import Proofs.ApiReads.
+
+Theorem C05_reads_are_pure : forall s n t,
+  snd (h_proxy_index s) = s /\ snd (h_proxy_show s n) = s /\ snd (h_toxic_index s n) = s /\ snd (h_toxic_show s n t) = s.
+Proof. exact reads_are_pure. Qed.
+
+Theorem C05_create_then_read : forall e s b resp s',
+  h_proxy_create e s b = (resp, s') -> status resp = status_created ->
+  exists p', pl resp = PProxy p' /\ find_proxy s (p_name p') = None /\
+             h_proxy_show s' (p_name p') = (mkResp status_ok (PProxy p'), s') /\
+             (forall m, m <> p_name p' -> find_proxy s' m = find_proxy s m).
+Proof. exact create_then_read. Qed.
+
+Theorem C05_update_then_read : forall e s n b resp s',
+  h_proxy_update e s n b = (resp, s') -> status resp = status_ok ->
+  exists p p', find_proxy s n = Some p /\ pl resp = PProxy p' /\ p_name p' = n /\
+               p_up p' = p_up p /\ p_down p' = p_down p /\
+               h_proxy_show s' n = (mkResp status_ok (PProxy p'), s') /\
+               (forall m, m <> n -> find_proxy s' m = find_proxy s m).
+Proof. exact update_then_read. Qed.
+
+Theorem C05_delete_then_read : forall s n resp s',
+  NoDup (map p_name s) -> h_proxy_delete s n = (resp, s') -> status resp = status_no_content ->
+  h_proxy_show s' n = (err status_proxy_not_found, s') /\ (forall m, m <> n -> find_proxy s' m = find_proxy s m).
+Proof. exact delete_then_read. Qed.
+
+Theorem C05_toxic_requests_touch_one_proxy : forall s n t b m,
+  m <> n ->
+  find_proxy (snd (h_toxic_create s n b)) m = find_proxy s m /\
+  find_proxy (snd (h_toxic_update s n t b)) m = find_proxy s m /\
+  find_proxy (snd (h_toxic_delete s n t)) m = find_proxy s m.
+Proof. exact toxic_requests_frame. Qed.
